@@ -139,7 +139,8 @@ def run(tier: str) -> int:
                         seen.add(a)
                         stack.append(a)
         r.extra.setdefault("unproved_roots", {})[date] = {n: blame(n, table, graph) for n in roots}
-        known_roots = {n for n in roots if common.match_known("C15", {"node": n, "kind": "reads-non-group-level-argument"})}
+        known_roots = {n for n in roots if common.match_known(
+            "C15", {"node": n, "kind": "reads-non-group-level-argument", "args": sorted(blame(n, table, graph))})}
         for n, lv in names:
             r.case({"static": n, "date": date})
             if n in unp:
